@@ -293,6 +293,7 @@ var gGlobalLits = [][]string{
 func genGProg(r *rand.Rand) *gProg {
 	p := &gProg{r: r}
 	p.w("# grammar-generated program\ndef struct_like(v):\n    return {\"field\": v, \"items\": [v, v]}\n")
+	idxA := len(p.toks)
 	p.nG = 1 + r.IntN(4)
 	for g := 0; g < p.nG; g++ {
 		p.cur = fmt.Sprintf("G%d", g)
@@ -322,6 +323,7 @@ func genGProg(r *rand.Rand) *gProg {
 		p.body("    ", f, 2)
 	}
 	// the target: calls some helpers, reads some globals, and has code of its own
+	idxB := len(p.toks)
 	p.cur = "t0"
 	p.w("@target()\ndef t0(self):\n    x = ")
 	p.intLit()
@@ -359,6 +361,13 @@ func genGProg(r *rand.Rand) *gProg {
 	}
 	p.w("    v.body(\"//:t0\", vals, [], \"\")\n")
 	p.w("@target(deps=[\":t0\"])\ndef t1(self):\n    v.body(\"//:t1\", [1], [], \"\")\n")
+	if r.IntN(3) == 0 {
+		// the targets are declared first, the globals and helpers they use only afterwards (names are resolved when the
+		// body runs)
+		late := append([]gTok{}, p.toks[idxA:idxB]...)
+		rest := append([]gTok{}, p.toks[idxB:]...)
+		p.toks = append(append(p.toks[:idxA:idxA], rest...), late...)
+	}
 	return p
 }
 
